@@ -12,11 +12,13 @@ import traceback
 sys.path.insert(0, os.path.dirname(os.path.abspath(__file__)))
 import units  # noqa: E402
 import strunits  # noqa: E402
+import clunits  # noqa: E402
 from rsparse import Unsupported  # noqa: E402
 
 
 units.UNITS['Disasm'] = strunits.gen_disasm
 units.UNITS['Asm'] = strunits.gen_asm
+units.UNITS['Clir'] = clunits.gen_clir
 
 
 def main():
